@@ -152,8 +152,7 @@ def check_extend(ctx):
                         f"extlin:{direction}:{ls_tag}:{rs_tag}")
     ev = Evaluator(ctx.prog, opaque_kind=REPO_RESULT_KIND)
     res, _ = ev.run_function(fi, args={'a': a, 'n': n, 'direction': Const('none'), 'lstart': Const(None), 'rstop': Const(None)})
-    ctx.check(isinstance(res, Num) and res.r == a.r, 'C17.2', 'extend_linspace: a direction that is neither both/left/right adds nothing', show(res, 100), fi.loc(),
-              fi.qualname, 'extlin:none')
+    compare(ctx, 'C17.2', 'extend_linspace: a direction that is neither both/left/right adds nothing', res, Num(a.r, a.length, 'ndarray'), fi, 'extlin:none')
     a_ = ctx.prog.func(SAU + 'extend_linspace').node.args
     fi2 = ctx.prog.func(SAU + 'extend_constant')
     if fi2.params() != ['a', 'n', 'direction']:
